@@ -24,11 +24,12 @@ def run(c):
     ]
     B = {'transitions': 'every conformant (t0 src, t0 target, raise) x (t1 target, event-less / i1)', 'start configuration': 'every legal one', 'external events': 'both orders x 3 kinds x 3 senders', 'microsteps': '<= 12'}
     ALL = (1401, 1402, 1403, 1404, 1405)
-    ins = {'map_order': 'insertion'}
-    c.run_m('h_c14_life_s0', expect_checks=ALL, expect_cover=(1401,), bounds=dict(B, shape='0: flat, 3 invoking states'), env=ins, diff_samples=4)
-    c.run_m('h_c14_life_s1', expect_checks=ALL, expect_cover=(1401,), bounds=dict(B, shape='1: compound state with two children (nested invokes: parent and child state both invoke)'), env=ins, diff_samples=4)
-    c.run_m('h_c14_child', expect_checks=(1450, 1451, 1452, 1453, 1454), expect_cover=(1450,), bounds={'passed values': 'any i64 x any i64', 'order of the pairs': 2}, env=ins, diff_samples=4)
+    # termination belongs to the claim (an <invoke> that fails must not be retried forever): an exhausted step budget counts as a hang
+    ins = {'map_order': 'insertion', 'budget_is_hang': True}
+    c.run_m('h_c14_life_s0', expect_checks=ALL, expect_cover=(1401,), bounds=dict(B, shape='0: flat, 3 invoking states'), env=ins, step_budget=800_000, diff_samples=4)
+    c.run_m('h_c14_life_s1', expect_checks=ALL, expect_cover=(1401,), bounds=dict(B, shape='1: compound state with two children (nested invokes: parent and child state both invoke)'), env=ins, step_budget=800_000, diff_samples=4)
+    c.run_m('h_c14_child', expect_checks=(1450, 1451, 1452, 1453, 1454), expect_cover=(1450,), bounds={'passed values': 'any i64 x any i64', 'order of the pairs': 2}, env=ins, step_budget=800_000, diff_samples=4)
     if c.tier == 'thorough':
-        c.run_m('h_c14_life_s2', expect_checks=ALL, expect_cover=(1401,), bounds=dict(B, shape='2: depth 3'), env=ins, diff_samples=4)
-        c.run_m('h_c14_life_s3', expect_checks=ALL, expect_cover=(1401,), bounds=dict(B, shape='3: parallel with two compound regions'), env=ins, diff_samples=4)
-        c.run_m('h_c14_life_s7', expect_checks=ALL, expect_cover=(1401,), bounds=dict(B, shape='7: parallel whose regions have finals'), env=ins, diff_samples=4)
+        c.run_m('h_c14_life_s2', expect_checks=ALL, expect_cover=(1401,), bounds=dict(B, shape='2: depth 3'), env=ins, step_budget=800_000, diff_samples=4)
+        c.run_m('h_c14_life_s3', expect_checks=ALL, expect_cover=(1401,), bounds=dict(B, shape='3: parallel with two compound regions'), env=ins, step_budget=800_000, diff_samples=4)
+        c.run_m('h_c14_life_s7', expect_checks=ALL, expect_cover=(1401,), bounds=dict(B, shape='7: parallel whose regions have finals'), env=ins, step_budget=800_000, diff_samples=4)
